@@ -31,7 +31,8 @@ import (
 )
 
 type c02Runner struct {
-	t       *rapid.T
+	t       *rapid.T // nil for scripted (draw-free) runs
+	fatalf  func(format string, args ...interface{})
 	w       *c02World
 	inconcl string
 	lab     map[string]int
@@ -228,18 +229,20 @@ func (r *c02Runner) sample(where string) {
 		q := r.quiet(n)
 		w.mu.Lock()
 		w.noteDLocked(n, d, where)
-		if q && !wait && !disk && inc.promiseState == "pending" && !inc.diskHeld && !inc.cut.Load() {
+		if q && !wait && !disk && inc.promiseState == "pending" && !inc.diskHeld && !inc.cut.Load() && !c02Off("o4") {
 			inc.promiseState = "checked"
 			for _, pa := range inc.promises {
-				w.st.promisesChecked++
-				rec := w.votes[c02VoteKey{n.addr, pa.Round, pa.Period, pa.Step}]
-				switch {
-				case rec == nil:
-					w.viol = append(w.viol, fmt.Sprintf("RESTORED ATTEST NOT RE-ISSUED: n%d.%d restored crash state with pending attest (r%d p%d s%d %s) but that vote never reached the network (checked at quiescence, %s)",
-						n.idx, inc.id, pa.Round, pa.Period, pa.Step, c02Val(pa.Proposal), where))
-				case rec.Value != pa.Proposal:
-					w.viol = append(w.viol, fmt.Sprintf("RESTORED ATTEST CHANGED: n%d.%d crash state promised (r%d p%d s%d %s) but the network saw %s (%s)",
-						n.idx, inc.id, pa.Round, pa.Period, pa.Step, c02Val(pa.Proposal), c02Val(rec.Value), rec.Where))
+				for ai, addr := range n.addrs {
+					w.st.promisesChecked++
+					rec := w.votes[c02VoteKey{addr, pa.Round, pa.Period, pa.Step}]
+					switch {
+					case rec == nil:
+						w.viol = append(w.viol, fmt.Sprintf("RESTORED ATTEST NOT RE-ISSUED: n%d.%d (key %d) restored crash state with pending attest (r%d p%d s%d %s) but that vote never reached the network (checked at quiescence, %s)",
+							n.idx, inc.id, ai, pa.Round, pa.Period, pa.Step, c02Val(pa.Proposal), where))
+					case rec.Value != pa.Proposal:
+						w.viol = append(w.viol, fmt.Sprintf("RESTORED ATTEST CHANGED: n%d.%d (key %d) crash state promised (r%d p%d s%d %s) but the network saw %s (%s)",
+							n.idx, inc.id, ai, pa.Round, pa.Period, pa.Step, c02Val(pa.Proposal), c02Val(rec.Value), rec.Where))
+					}
 				}
 			}
 		}
@@ -250,7 +253,7 @@ func (r *c02Runner) sample(where string) {
 func (r *c02Runner) failIfViolated() {
 	if v := r.w.violations(); len(v) > 0 {
 		r.cleanup()
-		r.t.Fatalf("C02 violated (%d):\n  %s\n--- script ---\n  %s\n--- full history ---\n%s", len(v), strings.Join(v, "\n  "), strings.Join(r.script, "\n  "), r.w.history())
+		r.fatalf("C02 violated (%d):\n  %s\n--- script ---\n  %s\n--- full history ---\n%s", len(v), strings.Join(v, "\n  "), strings.Join(r.script, "\n  "), r.w.history())
 	}
 }
 
@@ -418,6 +421,7 @@ func (r *c02Runner) dropLinks() bool {
 func (r *c02Runner) fire(nodes []int, fast bool) (int, bool) {
 	fired := 0
 	var desc []string
+	r.step("timeout fast=%v nodes=%v", fast, nodes)
 	for _, i := range nodes {
 		n := r.w.nodes[i]
 		if n.inc == nil || n.inc.dead.Load() {
@@ -428,7 +432,7 @@ func (r *c02Runner) fire(nodes []int, fast bool) (int, bool) {
 			desc = append(desc, fmt.Sprintf("n%d:%s", i, what))
 		}
 	}
-	r.step("timeout fast=%v nodes=%v fired=[%s]", fast, nodes, strings.Join(desc, " "))
+	r.w.logf("     fired=[%s]", strings.Join(desc, " "))
 	if fired == 0 {
 		return 0, true
 	}
@@ -750,11 +754,12 @@ func c02RunCase(t *rapid.T, tt *testing.T, vk *vkCtx) {
 	profile := rapid.SampledFrom([]string{"progress", "isolated", "crashy", "crashy", "holdy"}).Draw(t, "profile")
 	pre := rapid.IntRange(0, 3).Draw(t, "benignRounds")
 	steps := rapid.IntRange(6, 16).Draw(t, "steps")
+	extraKey := nSilent > 0 && rapid.IntRange(0, 2).Draw(t, "twoKeys") == 0
 
-	w := c02NewWorld(tt, nRun, nSilent)
-	r := &c02Runner{t: t, w: w, lab: make(map[string]int)}
+	w := c02NewWorld(tt, nRun, nSilent, extraKey)
+	r := &c02Runner{t: t, fatalf: t.Fatalf, w: w, lab: make(map[string]int)}
 	defer r.cleanup()
-	r.step("world: %d running nodes + %d silent accounts, profile %s, %d benign rounds, %d steps", nRun, nSilent, profile, pre, steps)
+	r.step("world: %d running nodes + %d silent accounts (node0 holds 2 keys: %v), profile %s, %d benign rounds, %d steps", nRun, nSilent, extraKey, profile, pre, steps)
 
 	ok := true
 	for _, n := range w.nodes {
@@ -816,6 +821,9 @@ func c02RunCase(t *rapid.T, tt *testing.T, vk *vkCtx) {
 	add := func(s string) { vk.Label(s); labels = append(labels, s) }
 	add("profile:" + profile)
 	add(fmt.Sprintf("nodes=%d silent=%d", nRun, nSilent))
+	if extraKey {
+		add("node0-holds-2-keys")
+	}
 	for l := range r.lab {
 		add(l)
 	}
@@ -844,7 +852,8 @@ func c02RunCase(t *rapid.T, tt *testing.T, vk *vkCtx) {
 	vk.Add("persists observed", int64(st.persistHook))
 	vk.Add("crash DB reads at vote release", int64(st.dReads))
 	vk.Add("crash DB reads failed", int64(st.dReadFail))
-	vk.Add("votes checked under a persistence gate", int64(st.holdNewVoteChecks))
+	vk.Add("own (re-)emissions observed under a persistence gate", int64(st.holdNewVoteChecks))
+	vk.Add("persistence gates with an attest parked behind them", int64(st.stuckSettles))
 	vk.Add("restored attests checked", int64(st.promisesChecked))
 	vk.Add("double crashes", int64(st.doubleCrash))
 	vk.Add("messages delivered", int64(st.delivered))
@@ -866,4 +875,118 @@ func TestVerif_C02_Crashes(t *testing.T) {
 	rapid.Check(t, func(rt *rapid.T) {
 		c02RunCase(rt, t, vk)
 	})
+}
+
+// TestVerif_C02_DoubleCrash: a fixed, draw-free script through the same environment and oracles: one voting node that
+// cannot reach quorum soft-votes, is crashed, restarts from its crash state, is crashed again and restarts again; then it
+// times out further. (This is the history of the defect fixed by 15ee9a30f7: the first restart overwrote the crash DB
+// with an empty state, the second restart started fresh and the node voted again in a step it had already voted in.)
+func TestVerif_C02_DoubleCrash(t *testing.T) {
+	vk := vkBegin(t, "C02")
+	vk.Rule("fixed scripts: k in {1,2,3} running nodes of 5 accounts (no quorum possible); soft vote, crash, restart, crash, restart, more timeouts; variants: crash at quiescence / right after persist / at vote release; non-trivial = the node voted again after the second restart")
+	oldTO := deadlock.Opts.DeadlockTimeout
+	deadlock.Opts.DeadlockTimeout = 10 * time.Minute
+	defer func() { deadlock.Opts.DeadlockTimeout = oldTO }()
+	c02Accounts(t)
+	for variant := 0; variant < 6; variant++ {
+		nRun := 1 + variant%3
+		mode := []string{"quiescent", "after-persist", "at-release"}[(variant/2)%3]
+		w := c02NewWorld(t, nRun, 5-nRun, variant >= 3)
+		r := &c02Runner{fatalf: t.Fatalf, w: w, lab: make(map[string]int)}
+		func() {
+			defer r.cleanup()
+			r.step("fixed double-crash script: %d running nodes of 5 accounts, first crash %s", nRun, mode)
+			for _, n := range w.nodes {
+				if err := n.start(); err != nil {
+					t.Fatalf("c02: MakeService: %v", err)
+				}
+			}
+			ok := r.settle("boot")
+			n0 := w.nodes[0]
+			chk := func(where string) {
+				if ok {
+					r.sample(where)
+				}
+				r.failIfViolated()
+			}
+			chk("boot")
+			if ok && nRun > 1 {
+				ok = r.deliverAll()
+			}
+			switch mode {
+			case "quiescent":
+				if ok {
+					_, ok = r.fire(r.allNodes(), false) // filter timeout: soft vote (attest => persist => release)
+				}
+				chk("soft")
+				if ok {
+					ok = r.crashNow(n0, "quiescent")
+				}
+			case "after-persist":
+				w.mu.Lock()
+				n0.armPersist = true
+				w.mu.Unlock()
+				if ok {
+					_, ok = r.fire(r.allNodes(), false)
+				}
+				w.mu.Lock()
+				n0.armPersist = false
+				w.mu.Unlock()
+			default:
+				w.mu.Lock()
+				n0.armVote = "lose"
+				w.mu.Unlock()
+				if ok {
+					_, ok = r.fire(r.allNodes(), false)
+				}
+				w.mu.Lock()
+				n0.armVote = ""
+				w.mu.Unlock()
+			}
+			chk("first restart")
+			if ok {
+				ok = r.crashNow(n0, "quiescent-second")
+			}
+			chk("second restart")
+			for k := 0; ok && k < 3; k++ {
+				if nRun > 1 {
+					ok = r.deliverAll()
+				}
+				if ok {
+					_, ok = r.fire(r.allNodes(), false)
+				}
+				chk(fmt.Sprintf("after %d", k))
+				if ok {
+					_, ok = r.fire([]int{0}, true)
+				}
+				chk(fmt.Sprintf("fast %d", k))
+			}
+			r.cleanup()
+			r.failIfViolated()
+			if os.Getenv("VERIF_C02_DUMP") != "" {
+				t.Logf("---- case history ----\n%s", w.history())
+			}
+			if !ok {
+				vk.Excluded("inconclusive: " + r.inconcl)
+				return
+			}
+			w.mu.Lock()
+			st := w.st
+			w.mu.Unlock()
+			if n0.incCount != 3 {
+				t.Fatalf("c02: fixed script did not perform two crashes (incarnations=%d)\n%s", n0.incCount, w.history())
+			}
+			nt := st.votedAfterRestart > 0
+			vk.Case(nt, strings.Join(r.script, "|"))
+			vk.Label("fixed:" + mode)
+			for md := range st.restarts {
+				vk.Label("restart:" + md)
+			}
+			vk.Add("own attest votes", int64(st.ownAttestVotes))
+			vk.Add("restored attests checked", int64(st.promisesChecked))
+			if vk.WantSample(nt) {
+				vk.Sample(nt, c02Sample{nRun, 5 - nRun, "fixed", r.script, nil, st.ownAttestVotes, st.crashes, st.restarts})
+			}
+		}()
+	}
 }
